@@ -282,7 +282,14 @@ fn btpe<R: Rng + ?Sized>(btpe: Btpe, flipped: bool, rng: &mut R) -> u64 {
             }
         } else {
             // Step 4: Region 4, right exponential tail.
-            y = (x_r - v.ln() / lambda_r) as u64; // `as` cast saturates
+            let y_tmp = x_r - v.ln() / lambda_r;
+            // The `as` cast saturates, which the test below relies on to reject a proposal
+            // beyond `n`; for `n == u64::MAX` a saturated value is not beyond `n`, so a
+            // proposal that does not fit is rejected here (`v == 0` gives infinity).
+            if !(y_tmp < 18446744073709551616.0) {
+                continue;
+            }
+            y = y_tmp as u64;
             if y > btpe.n {
                 continue;
             } else {
